@@ -65,6 +65,8 @@ structure Doc where
 def Def.isExecutable : Def → Bool | .ts .. => false | _ => true
 def Def.isOp : Def → Bool | .op .. => true | _ => false
 def Def.isFrag : Def → Bool | .frag .. => true | _ => false
+/-- an operation definition without a name -/
+def Def.isAnonOp : Def → Bool | .op _ none .. => true | _ => false
 
 /-- Variants of six places of the validator. `true` (the default) = the code of /repo HEAD (fix commits
     160f78c, 84a8250, 05e5ea5, 0368e7b, 874f2dd); `false` = the code before that fix, kept so that the
